@@ -13,6 +13,7 @@ package main
 import (
 	"bytes"
 	"fmt"
+	"math/big"
 	"os/exec"
 	"strings"
 	"time"
@@ -29,12 +30,27 @@ func oneShotArgs(bin string, timeoutMs int) []string {
 	}
 }
 
-// oneShot decides asserted ∧ extra in a fresh process.
-func (s *Solver) oneShot(extra *Term) SatResult {
+// oneShot decides asserted ∧ extra in a fresh process.  With wantModel the
+// script also asks for the values of the terms s.modelTerms() names (the path's
+// inputs and observations); on "sat" they are kept in s.osModel, from which
+// GetValues answers until the next query.  A "sat" whose model cannot be read
+// stays "unknown".
+func (s *Solver) oneShot(extra *Term, wantModel bool) SatResult {
 	t0 := time.Now()
 	em := NewEmitter()
 	var body strings.Builder
-	all := append(append([]*Term{}, s.asserted...), extra)
+	all := append([]*Term{}, s.asserted...)
+	if extra != nil {
+		all = append(all, extra)
+	}
+	var want []*Term
+	if wantModel {
+		if s.modelTerms == nil {
+			return Unknown
+		}
+		want = s.modelTerms()
+		body.WriteString("(set-option :produce-models true)\n")
+	}
 	for _, t := range all {
 		if t == nil {
 			continue
@@ -49,7 +65,20 @@ func (s *Solver) oneShot(extra *Term) SatResult {
 		}
 		body.WriteString("(assert " + em.ref(t) + ")\n")
 	}
+	if len(want) > 0 {
+		for _, t := range want {
+			em.Define(t)
+		}
+		body.WriteString(em.Take())
+	}
 	body.WriteString("(check-sat)\n")
+	if len(want) > 0 {
+		body.WriteString("(get-value (")
+		for _, t := range want {
+			body.WriteString(em.ref(t) + " ")
+		}
+		body.WriteString("))\n")
+	}
 	tmo := s.oneShotMs
 	if tmo == 0 {
 		tmo = 4 * s.timeoutMs
@@ -76,7 +105,8 @@ func (s *Solver) oneShot(extra *Term) SatResult {
 	s.stats.Nanos += int64(time.Since(t0))
 	s.stats.Queries++
 	res := Unknown
-	for _, line := range strings.Split(out.String(), "\n") {
+	lines := strings.Split(out.String(), "\n")
+	for i, line := range lines {
 		line = strings.TrimSpace(line)
 		if line == "unsat" {
 			res = Unsat
@@ -84,6 +114,22 @@ func (s *Solver) oneShot(extra *Term) SatResult {
 		}
 		if line == "sat" {
 			res = Sat
+			if wantModel {
+				model := map[*Term]*big.Int{}
+				if len(want) > 0 {
+					rest := strings.Join(lines[i+1:], "\n")
+					vals, err := parseValues(rest, len(want))
+					if err != nil || strings.Contains(rest, "(error") {
+						s.stats.Errors++
+						res = Unknown
+						break
+					}
+					for j, t := range want {
+						model[t] = vals[j]
+					}
+				}
+				s.osModel = model
+			}
 			break
 		}
 		if strings.HasPrefix(line, "(error") {
@@ -93,6 +139,9 @@ func (s *Solver) oneShot(extra *Term) SatResult {
 	}
 	if d := time.Since(t0); d > 3*time.Second && slowLog != nil {
 		slowLog(d, res, func() string { c := "one-shot retry"; if s.context != nil { c += " " + s.context() }; return c })
+	}
+	if queryLog != nil && s.context != nil {
+		fmt.Fprintf(queryLog, "%.3f %s one-shot %s\n", time.Since(t0).Seconds(), res, s.context())
 	}
 	return res
 }
